@@ -39,6 +39,10 @@ func (s *session) execIX(op string, a []string) string {
 		s.ixs = &ixSession{ix: index.NewShardedIndex(int8(t), n), iters: map[string]*index.IndexIterator{}}
 		return fmt.Sprintf("ok cap=%d", s.ixs.ix.VerifCap())
 	}
+	if op == "ix.npot" {
+		n, _ := strconv.Atoi(a[0])
+		return strconv.Itoa(index.VerifNextPowerOfTwo(n))
+	}
 	x := s.ixs
 	if x == nil {
 		return "bad:no-index"
